@@ -153,8 +153,8 @@ def guard_table(frame):
             if threaded:
                 # `ensure!(a || b)` / `if !(a && b)`: the condition was materialised in a temporary assigned on several paths;
                 # each non-constant assignment is its own guard, sitting in the block that computes it (control dependent on `a`)
-                for (dbb, val) in threaded:
-                    c2, fw2 = _strip_not(val, tfw)
+                for (dbb, val, own_fw) in threaded:
+                    c2, fw2 = _strip_not(val, tfw if own_fw is None else own_fw)
                     out.append({"cond": c2, "fail_when": fw2, "bb": dbb, "sbb": bi, "loc": body.loc(dbb), "kind": "if", "outcome": oc, "vals": vals})
                 continue
             c2, fw2 = _strip_not(cond, fw)
@@ -209,11 +209,25 @@ def _thread_bool(frame, sbb, term, fw):
                 continue
         break
     defs = frame.defs.get(local, [])
-    if len(defs) < 2 or any(k != "rv" for (k, _, _) in defs):
+    if len(defs) < 2:
         return None, fw
     out = []
     sbb = join
-    for (_, bi, si) in defs:
+    for (kind, bi, si) in defs:
+        if kind == "call":
+            # the value is a call result (`a == b` on a non-primitive type is a PartialEq::eq call): the call's continuation must fall
+            # straight into the switch block
+            cur, steps = body.blocks[bi]["t"].get("t"), 0
+            while cur is not None and cur != sbb and steps < 3:
+                s_ = cfg.succs(body)[cur]
+                if len(s_) != 1 or body.blocks[cur]["t"]["k"] not in ("goto", "drop") or body.blocks[cur]["s"]:
+                    return None, fw
+                cur = s_[0]
+                steps += 1
+            if cur != sbb:
+                return None, fw
+            out.append((bi, frame.call_term(bi), None))
+            continue
         # straight-line into the switch block
         cur, steps = bi, 0
         while cur != sbb and steps < 3:
@@ -228,9 +242,17 @@ def _thread_bool(frame, sbb, term, fw):
         val = frame.rvalue_term(body.blocks[bi]["s"][si]["r"])
         if isinstance(val, tuple) and val and val[0] == "c":
             if bool(val[1]) == fw:
-                return None, fw
+                # `ensure!(a && b)`: the temporary is set to the failing constant on the path where `a` already decided; that path is
+                # taken on one edge of the branch on `a` — which is therefore a guard of its own (fails when `a` takes that edge)
+                ps = cfg.preds(body)[bi]
+                if len(ps) != 1 or body.blocks[ps[0]]["t"]["k"] != "switch" or body.blocks[ps[0]]["t"].get("dty") != "bool" or body.blocks[bi]["s"][:si]:
+                    return None, fw
+                ev = cfg.switch_edge_value(body, ps[0], bi)
+                if ev not in (["0"], ["else"]):
+                    return None, fw
+                out.append((ps[0], frame.operand_term(body.blocks[ps[0]]["t"]["d"]), ev == ["else"]))
             continue
-        out.append((bi, val))
+        out.append((bi, val, None))
     return (out or None), fw
 
 
@@ -398,3 +420,48 @@ def dominates_ok(body, a_bb, b_bb):
 
 def plain_dominates(body, a_bb, b_bb):
     return a_bb != b_bb and cfg.dominates(body, a_bb, b_bb)
+
+
+def bool_disjuncts(frame):
+    """conditions (negation-free terms with polarity folded in) such that the boolean function of `frame` returns true iff at least
+    one of them holds — for a body whose result is assigned on several paths by short-circuit evaluation (`a != 0 || b != z`):
+    a constant-true assignment contributes the branch condition that leads to it, a non-constant assignment its value; a constant-false
+    assignment contributes nothing.  A single assignment gives [value].  None when the shape is anything else."""
+    body = frame.body
+    defs = frame.defs.get(0, [])
+    if len(defs) == 1:
+        return [frame.return_term()]
+    if len(defs) < 2:
+        return None
+    out = []
+    for (kind, bi, si) in defs:
+        if kind == "call":
+            out.append(frame.call_term(bi))
+            continue
+        val = frame.rvalue_term(body.blocks[bi]["s"][si]["r"])
+        if isinstance(val, tuple) and val and val[0] == "c":
+            if not val[1]:
+                continue
+            # constant true: the edge that leads here
+            cur, steps = bi, 0
+            ps = cfg.preds(body)[cur]
+            while len(ps) == 1 and body.blocks[ps[0]]["t"]["k"] in ("goto", "drop") and steps < 3:
+                cur = ps[0]
+                ps = cfg.preds(body)[cur]
+                steps += 1
+            if len(ps) != 1 or body.blocks[ps[0]]["t"]["k"] != "switch" or body.blocks[ps[0]]["t"].get("dty") != "bool":
+                return None
+            ev = cfg.switch_edge_value(body, ps[0], cur)
+            if ev not in (["0"], ["else"]):
+                return None
+            cond = frame.operand_term(body.blocks[ps[0]]["t"]["d"])
+            c2, pol = _strip_not(cond, ev == ["else"])
+            if pol is False:
+                if isinstance(c2, tuple) and len(c2) == 4 and c2[0] == "bin" and c2[1] in NEG:
+                    c2 = ("bin", NEG[c2[1]], c2[2], c2[3])
+                else:
+                    c2 = ("un", "Not", c2)
+            out.append(c2)
+            continue
+        out.append(val)
+    return out
